@@ -103,6 +103,20 @@ def check(R, F):
     newp = F.fn('server::rrl::RrlParams::new')
     cm = calls_in(newp, 'core::num::<impl u32>::checked_mul')
     pairs = sorted((paths.show_operand(newp, t['args'][0]), paths.show_operand(newp, t['args'][1])) for b, t in cm)
+    wide_tests = []
+    if not pairs:
+        # equivalent form: the product is computed in u64 and compared with u32::MAX
+        for b, blk in enumerate(newp.blocks):
+            t = blk['term']
+            if blk['cleanup'] or t['k'] != 'switch':
+                continue
+            txt = paths.show_operand(newp, t['op'])
+            m = re.match(r'^Gt\(Mul\((?:\w+::from|cast)\((arg\d)\),(?:\w+::from|cast)\((arg\d)\)\),(?:\w+::from\(u32::MAX\)|cast\(u32::MAX\)|4294967295_u64)\)$', txt)
+            if m and 'u64' in newp.local_ty(t['op']['pl']['l'] if False else t['op']['pl']['l']) or m:
+                if m:
+                    pairs.append((m.group(1), m.group(2)))
+                    wide_tests.append(b)
+        pairs = sorted(pairs)
     R.require(pairs == [('arg1', 'arg4'), ('arg2', 'arg4'), ('arg3', 'arg4')], 'rate-window', 'server::rrl::RrlParams::new|checked-products', newp.where(),
               'each rate x window is admitted under checked_mul', 'RrlParams::new checks products %s, expected each of the three rates times the window' % pairs)
     okb = [b for b, blk in enumerate(newp.blocks) for st in blk['stmts'] if st['k'] == 'assign' and st['rv']['k'] == 'agg' and st['rv']['def'] == 'server::rrl::RrlParams']
@@ -116,6 +130,8 @@ def check(R, F):
             nb = t['t']
             # find the is_none test consuming this product
             ok = ok and any('checked_mul' in x for x in g)
+        if wide_tests:
+            ok = ok and all(any(x.startswith('Gt(Mul(') and x.endswith(' in [0]') for x in g) for _ in wide_tests)
     R.require(ok, 'rate-window', 'server::rrl::RrlParams::new|constructed-after-checks', newp.where(), 'the parameters are built only when no product overflowed', 'RrlParams is constructed without the checked_mul tests dominating it')
     wr = effects.writers_of(F, 'server::rrl::RrlParams')
     for f in ('noerror_rate', 'nxdomain_rate', 'error_rate', 'window'):
